@@ -3,6 +3,7 @@
  * mirror_vm.h is generated from /repo on every run.  No quantifiers: universal conclusions use unconstrained
  * ghost indices/pointers; universal hypotheses over the immutable tables are instantiated at use by the
  * __verif_use_* hooks (rule N12) - each is listed in the trusted base. */
+#define MODEL_GHOST_DEFINE
 #include "vm_dbg_macros.h"
 #ifdef SPEC_CHECKS_OFF
 #pragma CPROVER check push
@@ -23,20 +24,34 @@ unsigned long *g_data_n;
 int **g_data_d;
 int g_sel;
 vm_t *g_vm;
-unsigned long model_g_map, model_g_set, model_last_map, model_last_set, model_pick_map, model_pick_set;
 int gc_op, gc_p0, gc_p1, gc_p2;
 unsigned long g_w, g_e;
 long ge_file;
 int ge_line;
-int *g_arena;
-unsigned long g_arena_n;
-int *g_sp;
+unsigned long g_s;
+int *g_cur_lo, *g_cur_hi;
 /* hidden range-for variables of VM::setBreakPoint (rule N10: its locals cannot be named in loop contracts) */
 extern int *__it_sbp0, *__end_sbp0, *__it_sbp1, *__end_sbp1;
-#define NONE (~0ul)
+
+/* all site lists are valid objects: finitely many because the tables are bounded in these groups (TBL_CAP) */
+#ifdef TBL_CAP
+#if TBL_CAP == 2
+#define REQ_ALL_LISTS(p) REQ_LIST(p, 0) REQ_LIST(p, 1)
+#elif TBL_CAP == 4
+#define REQ_ALL_LISTS(p) REQ_LIST(p, 0) REQ_LIST(p, 1) REQ_LIST(p, 2) REQ_LIST(p, 3)
+#elif TBL_CAP == 8
+#define REQ_ALL_LISTS(p) REQ_LIST(p, 0) REQ_LIST(p, 1) REQ_LIST(p, 2) REQ_LIST(p, 3) REQ_LIST(p, 4) REQ_LIST(p, 5) REQ_LIST(p, 6) REQ_LIST(p, 7)
+#elif TBL_CAP == 16
+#define REQ_ALL_LISTS(p) REQ_LIST(p, 0) REQ_LIST(p, 1) REQ_LIST(p, 2) REQ_LIST(p, 3) REQ_LIST(p, 4) REQ_LIST(p, 5) REQ_LIST(p, 6) REQ_LIST(p, 7) \
+  REQ_LIST(p, 8) REQ_LIST(p, 9) REQ_LIST(p, 10) REQ_LIST(p, 11) REQ_LIST(p, 12) REQ_LIST(p, 13) REQ_LIST(p, 14) REQ_LIST(p, 15)
+#else
+#error "REQ_ALL_LISTS is generated for TBL_CAP 8 and 16 only"
+#endif
+#else
+#define REQ_ALL_LISTS(p) /* unbounded tables: the site lists are not reachable (callee-replaced uses only) */
+#endif
 
 /* ------------------------------------------------------------------ at-use hooks (N12) */
-unsigned long nondet_ulong(void);
 /* I5/TBL: every listed site is a breakpoint instruction of the loaded program */
 void __verif_use_site(int ind) { __CPROVER_assume(SITE_VAL_OK(g_vm, ind)); }
 /* I5: every enabled location is a key of potential_breaks, and its site list lies in the arena; the witness entry is
@@ -44,16 +59,19 @@ void __verif_use_site(int ind) { __CPROVER_assume(SITE_VAL_OK(g_vm, ind)); }
 void __verif_use_enabled(const void *bp)
 {
   unsigned long e = nondet_ulong();
-  __CPROVER_assume(e < NPB(g_vm) && BPEQ(PB(g_vm)[e].first, ((const bp_t *)bp)->file._id, ((const bp_t *)bp)->line) &&
-                   LIST_OK(g_vm, e));
+  __CPROVER_assume(e < NPB(g_vm) && BPEQ(PB(g_vm)[e].first, ((const bp_t *)bp)->file._id, ((const bp_t *)bp)->line));
+  /* keys of a map are pairwise distinct (instantiated at the ghost entry g_w) */
+  __CPROVER_assume(g_w >= NPB(g_vm) || g_w == e || !BPEQ(PB(g_vm)[g_w].first, PB(g_vm)[e].first.file._id, PB(g_vm)[e].first.line));
   model_pick_map = e;
+  g_cur_lo = SITES(g_vm, e)._d;
+  g_cur_hi = SITES(g_vm, e)._d + SITES(g_vm, e)._n;
 }
 
 /* ------------------------------------------------------------------ getCurrentBreak (C06) */
 void c_getCurrentBreak(void *p, long *out_file, int *out_line)
 REQ_DBG_SHAPE(p)
 __CPROVER_requires(__CPROVER_is_fresh(out_file, sizeof(long)) && __CPROVER_is_fresh(out_line, sizeof(int)))
-__CPROVER_assigns(*out_file, *out_line, model_last_map, model_pick_map)
+__CPROVER_assigns(*out_file, *out_line, MODEL_MAP_GHOSTS)
 /* the entry used is the one recorded for the instruction just passed ... */
 __CPROVER_ensures(model_last_map >= NLI(p) || (LI(p)[model_last_map].first == IP(p) - 1 &&
                   *out_line == LI(p)[model_last_map].second.line && *out_file == LI(p)[model_last_map].second.file._id)) /*@C06,C07*/
@@ -91,32 +109,33 @@ __CPROVER_ensures(__CPROVER_return_value == (void *)&V(p)->enabled_breakpoints) 
 /* ------------------------------------------------------------------ clearBreakpoints (C05, C06, C17) */
 void c_clearBreakpoints(void *p)
 REQ_DBG_SHAPE(p)
-__CPROVER_requires(model_pick_map == NONE)
-__CPROVER_assigns(V(p)->enabled_breakpoints._n, __CPROVER_object_whole(CODE(p)), model_last_map, model_pick_map)
+REQ_ALL_LISTS(p)
+__CPROVER_requires(model_pick_map == NONE && model_pick2_map == NONE && model_pick3_map == NONE)
+__CPROVER_assigns(V(p)->enabled_breakpoints._n, __CPROVER_object_whole(CODE(p)), MODEL_MAP_GHOSTS, g_cur_lo, g_cur_hi)
 __CPROVER_ensures(NEN(p) == 0) /*@C06,C17*/
 __CPROVER_ensures(CODE_G_PARAMS_SAME(p)) /*@C05,C17*/
 __CPROVER_ensures(CODE_G_OP_DEBUGGER_ONLY(p)) /*@C05,C17*/
 #ifdef CLEAR_COMPLETE
 /* every site of every enabled location is passive again: ghost enabled position g_e, ghost entry g_w with that key,
- * ghost element g_sp of its site list */
-__CPROVER_ensures(g_e >= OLD(NEN(p)) || g_w >= NPB(p) || !BPEQ(PB(p)[g_w].first, ge_file, ge_line) || !IN_LIST(p, g_w, g_sp) ||
-                  OPC(p, *g_sp) == OP_POTENTIAL_BREAK) /*@C05,C06,C17*/
+ * ghost position g_s in its site list */
+__CPROVER_ensures(g_e >= OLD(NEN(p)) || g_w >= NPB(p) || !BPEQ(PB(p)[g_w].first, ge_file, ge_line) || g_s >= SITES(p, g_w)._n ||
+                  OPC(p, SITES(p, g_w)._d[g_s]) == OP_POTENTIAL_BREAK) /*@C05,C06,C17*/
 #endif
 ;
 
 /* ------------------------------------------------------------------ reset (C17): callee clearBreakpoints replaced */
 void c_reset(void *p)
 REQ_DBG_SHAPE(p)
-__CPROVER_requires(model_pick_map == NONE)
+__CPROVER_requires(model_pick_map == NONE && model_pick2_map == NONE && model_pick3_map == NONE)
 __CPROVER_assigns(STEPPING(p), IP(p), V(p)->data._n, V(p)->stack._n, V(p)->enabled_breakpoints._n,
-                  __CPROVER_object_whole(CODE(p)), model_last_map, model_pick_map)
+                  __CPROVER_object_whole(CODE(p)), MODEL_MAP_GHOSTS, g_cur_lo, g_cur_hi)
 /* the abstract state of a freshly constructed machine on the same program */
 __CPROVER_ensures(STEPPING(p) == 0 && IP(p) == 0 && M(p) == 0 && D(p) == 0 && NEN(p) == 0) /*@C17,C06,C19*/
 __CPROVER_ensures(CODE_G_PARAMS_SAME(p)) /*@C17,C05*/
 __CPROVER_ensures(CODE_G_OP_DEBUGGER_ONLY(p)) /*@C17,C05*/
 #ifdef CLEAR_COMPLETE
-__CPROVER_ensures(g_e >= OLD(NEN(p)) || g_w >= NPB(p) || !BPEQ(PB(p)[g_w].first, ge_file, ge_line) || !IN_LIST(p, g_w, g_sp) ||
-                  OPC(p, *g_sp) == OP_POTENTIAL_BREAK) /*@C17*/
+__CPROVER_ensures(g_e >= OLD(NEN(p)) || g_w >= NPB(p) || !BPEQ(PB(p)[g_w].first, ge_file, ge_line) || g_s >= SITES(p, g_w)._n ||
+                  OPC(p, SITES(p, g_w)._d[g_s]) == OP_POTENTIAL_BREAK) /*@C17*/
 #endif
 ;
 
@@ -124,10 +143,10 @@ __CPROVER_ensures(g_e >= OLD(NEN(p)) || g_w >= NPB(p) || !BPEQ(PB(p)[g_w].first,
 _Bool c_setBreakPoint(void *p, long file_id, int line, _Bool value)
 REQ_DBG_SHAPE(p)
 /* the entry the lookup may find is the ghost entry g_w (arbitrary), whose site list lies in the arena */
-__CPROVER_requires(g_w != NONE && model_pick_map == g_w && model_pick_set == NONE)
-__CPROVER_requires(g_w >= NPB(p) || LIST_OK(p, g_w))
+__CPROVER_requires(g_w < SKIP && model_pick_map == g_w && model_pick2_map == NONE && model_pick3_map == NONE && model_pick_set == NONE && model_pick2_set == NONE && model_pick3_set == NONE)
+REQ_LIST(p, g_w)
 __CPROVER_assigns(V(p)->enabled_breakpoints._n, __CPROVER_object_whole(EN(p)), __CPROVER_object_whole(CODE(p)),
-                  model_last_map, model_last_set, model_pick_map, model_pick_set, __it_sbp0, __end_sbp0, __it_sbp1, __end_sbp1)
+                  MODEL_MAP_GHOSTS, MODEL_SET_GHOSTS, __it_sbp0, __end_sbp0, __it_sbp1, __end_sbp1)
 /* succeeds exactly for locations listed as available */
 __CPROVER_ensures(!__CPROVER_return_value || (model_last_map < NPB(p) && BPEQ(PB(p)[model_last_map].first, file_id, line))) /*@C06,C08*/
 __CPROVER_ensures(__CPROVER_return_value || !(model_g_map < NPB(p) && BPEQ(PB(p)[model_g_map].first, file_id, line))) /*@C06,C08*/
@@ -136,9 +155,9 @@ __CPROVER_ensures(__CPROVER_return_value || (NEN(p) == OLD(NEN(p)) && (g_c >= N(
                   (g_e >= NEN(p) || BPEQ(EN(p)[g_e], ge_file, ge_line)))) /*@C05,C06*/
 __CPROVER_ensures(CODE_G_PARAMS_SAME(p)) /*@C05*/
 __CPROVER_ensures(CODE_G_OP_DEBUGGER_ONLY(p)) /*@C05*/
-/* every site of the location (ghost element g_sp of its list) is switched to the requested form */
-__CPROVER_ensures(!__CPROVER_return_value || !IN_LIST(p, g_w, g_sp) ||
-                  OPC(p, *g_sp) == (value ? OP_BREAK : OP_POTENTIAL_BREAK)) /*@C05,C06*/
+/* every site of the location (ghost position g_s of its list) is switched to the requested form */
+__CPROVER_ensures(!__CPROVER_return_value || g_s >= SITES(p, g_w)._n ||
+                  OPC(p, SITES(p, g_w)._d[g_s]) == (value ? OP_BREAK : OP_POTENTIAL_BREAK)) /*@C05,C06*/
 /* enabled set: the location is a member afterwards iff it was enabled; all other members are kept */
 __CPROVER_ensures(!__CPROVER_return_value || !value || (model_last_set < NEN(p) && BPEQ(EN(p)[model_last_set], file_id, line))) /*@C06*/
 __CPROVER_ensures(!__CPROVER_return_value || value || !(model_g_set < NEN(p) && BPEQ(EN(p)[model_g_set], file_id, line))) /*@C06*/
@@ -171,10 +190,8 @@ static void havoc_ghosts(void)
   g_c = nondet_ulong(); g_w = nondet_ulong(); g_e = nondet_ulong();
   gc_op = nondet_int(); gc_p0 = nondet_int(); gc_p1 = nondet_int(); gc_p2 = nondet_int();
   ge_file = nondet_long(); ge_line = nondet_int();
-  model_g_map = nondet_ulong(); model_g_set = nondet_ulong();
-  model_last_map = nondet_ulong(); model_last_set = nondet_ulong();
-  model_pick_map = nondet_ulong(); model_pick_set = nondet_ulong();
-  g_arena_n = nondet_ulong(); g_sp = nondet_pint(); g_vm = nondet_pvm();
+  model_ghost_havoc();
+  g_s = nondet_ulong(); g_vm = nondet_pvm();
 }
 #define CANARY __CPROVER_assert(0, "canary: end of harness reachable (requires satisfiable)")
 void h_getCurrentBreak(void) { void *p; long *f; int *l; havoc_ghosts(); w_getCurrentBreak(p, f, l); CANARY; }
